@@ -10,6 +10,8 @@
 #include <vector>
 #include <list>
 #include <deque>
+#include <map>
+#include <type_traits>
 #include <cstdio>
 #include <cstdlib>
 #include <csignal>
@@ -83,16 +85,48 @@ template <class C1, class C2> static void put_pairs(std::ostream& o, const C1& L
 }
 static std::string nospace(const std::string& s) { std::string r; for (size_t i = 0; i < s.size(); ++i) if (s[i] != ' ') r += s[i]; return r; }
 
+// ---------------------------------------------------------------------------------------------------------------
+// The domain objects of the property obtained in every way a program can obtain them.  A line "@<way> <op> <args>" runs <op>
+// on the objects of that way:  orig (constructed, used), copy (copy-constructed from the used one), copy0 (copy of a fresh,
+// unused one), assign (constructed, then assigned from the used one when the class is assignable, else replaced by a copy),
+// byvalue (passed by value through a function and returned), heap (new D(orig)), copycopy (copy of a copy whose intermediate
+// has been destroyed), srcgone (copy of a heap object that has been deleted since).
+template <class D> static D pass_by_value(D d) { return d; }
+template <class D> static typename std::enable_if<std::is_copy_assignable<D>::value, void>::type assign_over(D*& dst, const D& src) { *dst = src; }
+template <class D> static typename std::enable_if<!std::is_copy_assignable<D>::value, void>::type assign_over(D*& dst, const D& src) { delete dst; dst = new D(src); }
+template <class D> static D* obtain(const std::string& way, D& used, const D& fresh_proto) {
+    if (way == "copy") return new D(used);
+    if (way == "copy0") { D fresh(fresh_proto); return new D(fresh); }
+    if (way == "assign") { D* d = new D(fresh_proto); assign_over(d, used); return d; }
+    if (way == "byvalue") return new D(pass_by_value<D>(used));
+    if (way == "heap") { D* h = new D(used); D* r = new D(*h); delete h; return r; }
+    if (way == "copycopy") { D* r; { D mid(used); r = new D(mid); } return r; }
+    if (way == "srcgone") { D* src = new D(fresh_proto); D* r = new D(*src); delete src; return r; }
+    return 0;
+}
+struct Doms { IntPrimeDom* ip; IntFactorDom<GivRandom>* fd; IntFactorDom<ScriptRand>* sd; };
+
 int main(int argc, char** argv) {
     quiet_stderr();
     std::ios::sync_with_stdio(false);
     double budget = argc > 1 ? atof(argv[1]) : 20.0;       // seconds per case
     Integer::seeding((uint64_t)20261002);
     GivRandom gen(987654321);
-    IntPrimeDom IP;
-    IntFactorDom<GivRandom> FD(gen);
+    IntPrimeDom IP0;
+    IntFactorDom<GivRandom> FD0(gen);
     ScriptRand sgen;
-    IntFactorDom<ScriptRand> SD(sgen);
+    IntFactorDom<ScriptRand> SD0(sgen);
+    std::map<std::string, Doms> ways;
+    {   // the originals are USED before anything is copied from them
+        Z t; FD0.factor(t, Z(10403)); FD0.iffactorprime(t, Z(360)); SD0.factor(t, Z(91)); IP0.isprime(Z(65537)); IP0.nextprime(t, Z(100));
+        Doms o = { &IP0, &FD0, &SD0 }; ways["orig"] = o;
+        const char* names[] = { "copy", "copy0", "assign", "byvalue", "heap", "copycopy", "srcgone" };
+        for (size_t i = 0; i < sizeof(names) / sizeof(names[0]); ++i) {
+            Doms d = { obtain<IntPrimeDom>(names[i], IP0, IntPrimeDom()), obtain<IntFactorDom<GivRandom> >(names[i], FD0, IntFactorDom<GivRandom>(gen)),
+                       obtain<IntFactorDom<ScriptRand> >(names[i], SD0, IntFactorDom<ScriptRand>(sgen)) };
+            ways[names[i]] = d;
+        }
+    }
     {   // handlers run on an alternate stack so that a stack overflow (runaway recursion) is reported as CRASH, too
         static char altstack[1 << 16];
         stack_t ss; ss.ss_sp = altstack; ss.ss_size = sizeof(altstack); ss.ss_flags = 0; sigaltstack(&ss, 0);
@@ -104,6 +138,10 @@ int main(int argc, char** argv) {
         std::istringstream in(line);
         std::string op; in >> op;
         if (op.empty()) continue;
+        std::string way = "orig";
+        if (op[0] == '@') { way = op.substr(1); op.clear(); in >> op; }
+        if (!ways.count(way)) { std::cout << "UNKNOWN-WAY" << std::endl; continue; }
+        IntPrimeDom& IP = *ways[way].ip; IntFactorDom<GivRandom>& FD = *ways[way].fd; IntFactorDom<ScriptRand>& SD = *ways[way].sd;
         std::vector<Z> a; { std::string t; while (in >> t) a.push_back(Z(t.c_str())); }
         std::ostringstream o;
         int sig = sigsetjmp(jb, 1);
@@ -121,7 +159,7 @@ int main(int argc, char** argv) {
             thr = a.size() > 1 ? (unsigned long)(uint64_t)a[1] : 0;
             for (size_t i = 2; i < a.size(); ++i) SCRIPT.push_back(a[i]);
         }
-        arm(inplace && budget > 2.0 ? 2.0 : budget);   // the unguarded in-place forms do not return: a short budget is enough
+        arm(inplace && budget > 2.0 ? 2.0 : (way != "orig" && budget > 3.0 ? 3.0 : budget));   // the grid run on copies is made of fast calls   // the unguarded in-place forms do not return: a short budget is enough
         // ------------------------------------------------------------ primality
         if (op == "isprime") o << nz(IP.isprime(a[0]));
         else if (op == "isprime.r") o << nz(IP.isprime(a[0], (int)(int64_t)a[1]));
